@@ -475,6 +475,7 @@ class Sim:
                 c = alias[c]
             self.clk_root[clk] = c
         self.state_names = sorted({w for k in range(len(M.syncs)) for w in self._sync_writes(k) if not w.startswith("mem:")})
+        self.state_idx = [self.idx[n] for n in self.state_names]
 
     def _sync_writes(self, k):
         g = _Gen(self)
@@ -526,6 +527,18 @@ class Sim:
     def restore(self, snap):
         self.v[:] = snap[0]
         for m, s in zip(self.mems, snap[1]):
+            m[:] = s
+
+    def get_state(self):
+        """values of every reg assigned in a clocked block + all memory words (what persists across a clock edge)"""
+        v = self.v
+        return tuple([v[i] for i in self.state_idx]), tuple([tuple(m) for m in self.mems])
+
+    def set_state(self, st):
+        v = self.v
+        for i, x in zip(self.state_idx, st[0]):
+            v[i] = x
+        for m, s in zip(self.mems, st[1]):
             m[:] = s
 
     def set(self, name, value):
